@@ -92,7 +92,51 @@ struct Project {
     dup_ids: Vec<&'static str>,
 }
 
+fn big_file_with_ties() -> &'static str {
+    // > 50 diagnostics in one file, with groups of diagnostics sharing one start position and
+    // hash-ordered import warnings in between
+    let mut t = String::from("package o;\n");
+    for i in 0..40 {
+        t.push_str(&format!("import u.U{i}; "));
+        if i % 8 == 7 {
+            t.push('\n');
+        }
+    }
+    t.push_str("\noneway interface I {\n");
+    for i in 0..6 {
+        t.push_str(&format!("  void m{i}(out int a, inout String b, out CharSequence c);\n"));
+    }
+    t.push_str("}\n");
+    Box::leak(t.into_boxed_str())
+}
+
 fn projects() -> Vec<Project> {
+    let mut v = base_projects();
+    v.push(Project {
+        name: "big-file-with-position-ties",
+        files: vec![("obs", big_file_with_ties())],
+        dup_ids: vec![],
+    });
+    v.push(Project {
+        name: "enum-file-with-header-diagnostics",
+        files: vec![
+            ("obs", "package o; import u.A; import u.B; import d.X; parcelable Q; parcelable R; enum E { A, = 3, B }"),
+            ("x", "package d; parcelable X { }"),
+        ],
+        dup_ids: vec![],
+    });
+    v.push(Project {
+        name: "parcelable-file-with-header-diagnostics",
+        files: vec![
+            ("obs", "package o; import u.A; import u.B; import d.X; parcelable Q; parcelable R;\nparcelable P { int a int b; Nope n; }"),
+            ("x", "package d; parcelable X { }"),
+        ],
+        dup_ids: vec![],
+    });
+    v
+}
+
+fn base_projects() -> Vec<Project> {
     vec![
         Project {
             name: "imports-on-one-line",
@@ -607,12 +651,12 @@ pub fn run(tier: Tier, seed: u64) -> i32 {
     if !*all_closed.lock().unwrap() {
         stats.cap("seed sweep ended before every hash container of <= 4 elements had been seen in all its iteration orders".into());
     }
-    stats.sample(json!({"project": "imports-on-one-line", "file": projects()[0].files[0].1}));
-    stats.sample(json!({"project": "one-key-two-kinds", "files": projects()[5].files}));
+    stats.sample(json!({"project": "imports-on-one-line", "file": base_projects()[0].files[0].1}));
+    stats.sample(json!({"project": "one-key-two-kinds", "files": base_projects()[5].files}));
     let multi = stats.states.load(std::sync::atomic::Ordering::Relaxed) > 1000;
     finish(
         &stats,
-        "12 projects built to collide (several diagnostics on one line, several unresolved / unused imports and forward declarations, two imports matching one name, a declaration conflicting with several imports, one key registered twice, files without a tree, recovered syntax errors after validation diagnostics) x insertion orders (all permutations up to the stated cap) x plain / replace histories x base keys of new threads x repeated validate() calls; hash seeds are owned through the getrandom shim and the sweep continues until every hash container of <= 4 elements has been observed (hook H3) in all its iteration orders at every site; all outputs of one project must be equal and every file's diagnostics ascending in (line, column); states = validate() calls compared; distinct_nontrivial = distinct iteration-order tuples observed",
+        "15 projects built to collide (several diagnostics on one line, several unresolved / unused imports and forward declarations, two imports matching one name, a declaration conflicting with several imports, one key registered twice, files without a tree, recovered syntax errors after validation diagnostics) x insertion orders (all permutations up to the stated cap) x plain / replace histories x base keys of new threads x repeated validate() calls; hash seeds are owned through the getrandom shim and the sweep continues until every hash container of <= 4 elements has been observed (hook H3) in all its iteration orders at every site; all outputs of one project must be equal and every file's diagnostics ascending in (line, column); states = validate() calls compared; distinct_nontrivial = distinct iteration-order tuples observed",
         &[
             "std's RandomState takes its keys from getrandom(2) once per thread and increments them per instance; the LD_PRELOAD shim makes them a function of the harness-chosen base key (self-tested at start-up)",
             "hook H3 only observes the order of the container the library is about to iterate",
